@@ -18,7 +18,7 @@ func FormatPacketDsl(dsl string) (string, error) {
 	parser.RemoveErrorListeners()
 	parser.AddErrorListener(listener)
 	// parese the file
-	tree := parser.Packet()
+	tree := ParseWholeInput(parser, listener)
 	if listener.HasErrors() {
 		return dsl, fmt.Errorf("syntax errors found: %v", listener.Errors)
 	}
